@@ -10,6 +10,21 @@ Helper module (NOT a property driver): imported by props/C16.py with `from props
   run_outcomes(exe, srcs)   -> [hook response dict]
   classify(outcome)         -> None | error class of a type-related runtime error
 
+Programs: genprog (annotate=True, no closures => every function fully annotated), sizes 8..10; in 60% of them the
+function definitions are moved to random places among the top-level statements (functions are hoisted). Mutants
+(~4 per program, one node each, all choices from ctx.rng): literal-swap, drop-arg, add-arg, rename-undefined,
+rename-other-var, annotation-param, annotation-return, operator-swap, delete-match-arm, call-non-function,
+no-such-method, no-such-field. literal-swap and rename-other-var weigh 3x, and inside them the positions where the
+checker must join or propagate types (list elements, branch values, payloads, let/assign right-hand sides; uses inside
+function bodies renamed to top-level variables) are preferred over plain operands.
+
+Violation keys: "C16:<error class>:<construct class>"; error class from classify(); construct class from
+construct_class(): found mechanically from the error position by following binders (`let`, `for`, match binding,
+parameter) of the variables in the faulting expression, e.g. "for-over-list-literal" (loop variable of a `for` whose
+iterable is a list literal: the checker gives it type Any), "toplevel-let-read-in-function" (the checker resolves a
+function body's free variable to a top-level `let`, the evaluator does not), else the binder kind / syntactic form /
+"mutant:<kind>".
+
 CLI facts (src/main.rs `Check`, src/syntax_check.rs): `garden check --json <path>` prints one JSON object per
 diagnostic {line_number, end_line_number, column, end_column, message, severity: "error"|"warning"} separated by
 blank lines; exit status 1 when there is ANY diagnostic (warnings included), 0 when there is none. Acceptance here
@@ -27,7 +42,7 @@ from vplib import common, oracle, genprog
 FEATURES = {"fun", "match", "for", "while", "list", "tuple", "enum", "break", "return"}     # no "closure"
 TICK_LIMIT = 20000
 MUTANTS_PER_BASE = 4
-SHRINK_PER_CLASS = 2          # violations shrunk (and reported) per provisional class
+SHRINK_PER_CLASS = 2          # violations shrunk, confirmed on the CLI and reported per key (shortest first)
 CLI_CHECK = "garden check --json <file with the input>   # no diagnostic with severity \"error\""
 CLI_RUN = "garden run <file with the input>   # prints `Exception: <observed>` on stderr"
 
